@@ -1867,6 +1867,21 @@ class Engine:
                     del self.pc[saved:]
                 env['_ytotal'] = toz(env.get('_ytotal', 0)) + zmax(toz(v.length), z3.IntVal(0))
                 return
+            if isinstance(v, (VRow, VArr)) and specs_y is not None and v.arr.sort().range() == z3.IntSort():
+                # `yield from <list of ints>`: every entry is yielded, in order; clauses checked for a generic position _yt
+                t = self.fresh('yield_pos')
+                saved = len(self.pc)
+                self.pc.append(z3.And(t >= 0, t < toz(v.length)))
+                e2 = dict(env)
+                e2['yielded'] = z3.Select(v.arr, t)
+                e2['_yt'], e2['_ylen'] = t, toz(v.length)
+                try:
+                    for tx in specs_y:
+                        self.oblige('yield', tx, self.spec_eval(tx, e2), y.lineno)
+                finally:
+                    del self.pc[saved:]
+                env['_ytotal'] = toz(env.get('_ytotal', 0)) + zmax(toz(v.length), z3.IntVal(0))
+                return
             if isinstance(v, VStrs) and specs_y is not None:
                 # `yield from <sequence of opaque texts>`: that many values; the clauses of the site speak about the count `_ylen`
                 e2 = dict(env)
